@@ -36,7 +36,26 @@ func classifyFor(a, b Schema, inspected bool) string {
 	return strings.Join(keep, "+")
 }
 
+// fixedClasses: input classes of findings that were repaired in the Go code (known_findings.d/C01.json:
+// "status": "fixed: ..."): they are generated like any other input, classify does not report them, and
+// a violation on them is a new violation again (so reverting the patch is caught with a failing input).
+// classifyRaw still recognises them: the witness streams of the oracle stage keep running as regression tests.
+var fixedClasses = map[string]bool{"check-parens": true, "drop-inline-unique": true, "gen-col-name-prefix": true, "pk-order": true, "raw-default-parens": true}
+
 func classify(a, b Schema) string {
+	var keep []string
+	for _, x := range strings.Split(classifyRaw(a, b), "+") {
+		if x != "none" && !fixedClasses[x] {
+			keep = append(keep, x)
+		}
+	}
+	if len(keep) == 0 {
+		return "none"
+	}
+	return strings.Join(keep, "+")
+}
+
+func classifyRaw(a, b Schema) string {
 	set := map[string]bool{}
 	for ti := range b.Tables {
 		t := &b.Tables[ti]
@@ -325,7 +344,7 @@ func (g *G) witness(class string) (Schema, Schema, bool) {
 				ok = true
 			}
 		}
-		if ok && classify(a, b) == class && validSQLite(a) == nil {
+		if ok && classifyRaw(a, b) == class && validSQLite(a) == nil {
 			return a, b, true
 		}
 	}
